@@ -104,7 +104,12 @@ class Proto:
 
     def build(self, targets=('all',)):
         self.clock.tick(self.tmp)
-        return sandbox.run_backend(self.backend, self.bld, self.env,
+        self.nbuild = getattr(self, 'nbuild', 0) + 1
+        # (a build file that keeps regenerating itself fails after 6 rounds
+        # instead of running into a time-out)
+        env = dict(self.env, VF_BFG_MAX='6', VF_BFGLOG=os.path.join(
+            self.tmp, 'bfg.log.{}'.format(self.nbuild)))
+        return sandbox.run_backend(self.backend, self.bld, env,
                                    list(targets))
 
     def run(self, products, touched, rebuilt, fail, walked=None):
